@@ -9,8 +9,8 @@ Sub-checks
             dominant entries included), K <= 5 (6 thorough), D = 16 (+ 12, 10 thorough), probed at the mid-point of every cell
             of the lattice 1/(K D): all break points of these samplers on such targets lie on that lattice, so the INTEGER
             count per state must equal p_k K D exactly. The "never" clause is judged on single floats as well: every point
-            j/D and x/K (the break points themselves), the float on either side of it, 0 and 1-2^-53 must give a state of
-            positive probability inside the range.
+            j/D and x/K (the break points themselves), the float on either side of it, 0 and (D = 16: exact sums) 1-2^-53
+            must give a state of positive probability inside the range.
  rawx       hand-listed extremes (tiny / dominant / tied / zero entries, K <= 11) by partition recovery.
  rawbig     vectors of 257, 300 and 1000 entries (1024 and 4096 in thorough): linear, geometric blocks with ties and zeros,
             uniform, three dominant entries + a long tail; alias / tree / Huffman by partition recovery, the table method (on
@@ -36,29 +36,45 @@ Sub-checks
             Alphabet (quick): 1-d: HEM, VG, CGMY 0.5 / 1.2, exp-Merton x {fixed 3 / 5 points, uniform (model truncation),
             geometric (model truncation), geometric with bounds, probability step, credit (threshold moved to 0.8 l when
             0.5 l does not fit: VG)} x refinement 0 / 1 x 6 methods; the "reinit" construction twin of each family
-            (mc.alphabets.with_reinit) on one grid; ONE-SIDED model (HEM p = 1; p = 0 is refused by the library: the states of the
-            negative half axis have probability exactly 0) on fixed / geometric-bounds / hand-made grids; hand-made CTMCGrid axes with ONE point on
-            one side of the origin and several on the other (both orientations); a 400-state chain (h = 0.01, 401 points;
-            every method but the table). 2-d (inversion, adapted tree): Clayton pairs (one with eta = 1: the mixed-sign
+            (mc.alphabets.with_reinit) on one grid; ONE-SIDED model (HEM p = 1; p = 0 is refused by the library: the
+            states of the negative half axis have probability exactly 0) on fixed / geometric-bounds / hand-made grids;
+            hand-made CTMCGrid axes with ONE point on one side of the origin and several on the other (both orientations);
+            a 400-state chain (h = 0.01, 401 points; every method but the table). 2-d (inversion, adapted tree): Clayton pairs (one with eta = 1: the mixed-sign
             quadrants have probability 0), independent and complete-dependence copula, one one-sided margin x {fixed 3 / 5
             (refined once too), credit symmetric / asymmetric, uniform by model truncation (a model whose left bound falls
             within h keeps ONE left point), geometric (model) and geometric with bounds, hand-made one-point half axes}.
-            3-d: fixed 3^3, 5^3, hand-made one-point half axis (4^3).
- history    explicit-state search (BFS, depth 3; 4 in thorough) over operation histories on ONE sampler object, for every
-            method (inversion with default and shrunk log, adapted trees 1-d / n-d with a RE-USED argument array, alias, tree,
-            Huffman, table), 1-d, 2-d and 3-d, including a one-point half axis and a one-sided model. Menu: a draw at one u
-            per state interval / at the frontier of the memo / 0 / top (thinned to 14), and for a spread sub-menu of these
-            u: the public cost reset (process.reset_one_simulation_cost + sampling.reset_sampling_cost, what the engines
-            call between runs) then a draw; copy.deepcopy of the process then a draw on the copy; a dill round trip (what
-            the pathos pool does) then a draw; a batch call sample(3); a SECOND sampler of the same method for another
-            model built on the same grid object, drawn from, then a draw on the first. Invariant: every answer equals the
-            answer of a fresh sampler for the same u (the second sampler is compared with its own fresh twin as well).
-            Canonical state = digest of the integer / float / container-size attributes of the sampler and of the objects of
-            rpylib.distribution it owns (cost counters excluded) + the set of u drawn + the sequence of non-draw operations.
-Exclusions (statement silent): grid.refine() after the sampler was built (the target law itself changes); n-d
- probability-step grids (their middle() is one-dimensional; C13); model-truncated grids for one-sided models (the
+            3-d: fixed 3^3, 5^3, hand-made one-point half axis (4^3). 4-d: fixed 3^4 (adapted tree; inversion in thorough).
+            For the samplers that memoise (inversion, adapted trees; unrefined grids) the law is recovered once more on a sampler
+            built AFTER a sampler of another model was built and used on the same grid object, and that other sampler
+            must answer as before afterwards.
+            Not judged: a state of probability 0 or the origin returned within the last (8 + number of states) ulps of
+            [0, 1): the float sum of the target vector may fall short of 1 there (counted as rounding-zone-answers); a
+            state of probability 0 returned by an ADAPTED tree on one interior float (u > 0): these trees descend on masses
+            of unions of cells, which are the sums of the cell masses up to rounding only (counted). The origin and states
+            off the grid are judged on every float, for every sampler.
+ history    explicit-state search (BFS) over operation histories on ONE sampler object, for every method (inversion with the
+            library's and with shrunk logs, adapted trees 1-d / n-d driven with a RE-USED argument array, alias, tree,
+            Huffman, table), 1-d, 2-d and 3-d chains, including a one-point half axis and the one-sided model.
+            Events: a draw at every u of the menu (one u per state interval, the first u of a middle piece, 0, top;
+            thinned to 14 / 12 / 10 / 8 values with the cost of the chain); a batch call sample(3) on a sub-menu of 5;
+            and, at most once per history and anywhere before its last draw, an operation without a draw:
+            the public cost reset (process.reset_one_simulation_cost + sampling.reset_sampling_cost: what the engines call
+            between runs); copy.deepcopy of the process (the copy is used from then on; what next_level does); a dill
+            round trip of the process (what the pathos pool does); a SECOND sampler of the same method for another model
+            built on the same grid object and drawn from at the sub-menu. Every draw of the menu is tried right after
+            each operation. Histories hold up to 3 draw-bearing events for the inversion sampler (4 in thorough) and 2
+            (3) for the samplers that only hold caches of pure values. Invariant: every answer equals the answer of a fresh
+            sampler for the same u; the second sampler answers as its fresh twin (same draws, own copy of the grid).
+            Canonical state = digest of the integer / float / string attributes and container sizes of the sampler and of
+            the rpylib.distribution objects it owns (cost counters excluded: memo length, _last_projected_index,
+            _index_after_last_logged, _switch/_kk if they exist ...) + for cache-only samplers the set of u drawn + the
+            pending operation when the last event was one.
+Exclusions (statement silent / not reachable): grid.refine() after the sampler was built (the target law itself changes);
+ n-d probability-step grids (their middle() is one-dimensional; C13); model-truncated grids for one-sided models (the
  truncation helper divides by the mass of the empty side); the un-cached axis branch of the n-d adapted tree (>= 10 001
- points).
+ points: not reachable at an affordable size); the diffusion matrix of the copula chain (its pathos pool is answered by
+ zeros while the constructor runs); numpy's Generator API (the seams patch numpy.random.uniform / choice, which is what the
+ library calls).
 Assumption (stated in the evidence): partition recovery starts from a dyadic sweep of n0 >= 16 x (number of states) probes;
  a piece that starts and ends strictly between two neighbouring probes that agree would be missed.
 """
@@ -160,6 +176,14 @@ def where_returned(pieces, hi, state):
         if st == state:
             return s, nxt[0] - s
     return None, 0.0
+
+
+def where_class(at, ln, hi=1.0):
+    """suffix of the failure class of a 'never' clause by where the offending piece lies: a set of positive length, the
+    single float u = 0, or another single float (pieces of at most 1e-12)."""
+    if ln > 1e-12:
+        return ""
+    return "-at-u=0" if at == 0.0 else "-at-single-float"
 
 
 def compositions(D, K):
@@ -364,6 +388,10 @@ def chain_specs(tier):
         addn(3, cm3, g, 0)
     if thorough:
         addn(3, {"margins": ["hem", HEM_POS, "vg"], "copula": CLAYTON}, {"kind": "fixed", "h": 0.1, "n": 3}, 0)
+    # 4-d (the Rosenberg-Strong pairing beyond three coordinates; the inversion sampler there takes 40 s: thorough only)
+    cm4 = {"margins": ["hem", "vg", "hem2", "merton"], "copula": CLAYTON}
+    for meth in (METHODS_ND if thorough else ["BINARYSEARCHTREEADAPTED"]):
+        out.append({"sub": "chain", "dim": 4, "model": cm4, "grid": {"kind": "fixed", "h": 0.1, "n": 3, "refine": 0}, "method": meth})
     return out
 
 
@@ -374,26 +402,28 @@ def history_specs(tier):
     cm = {"margins": ["hem", "vg"], "copula": CLAYTON}
     cm3 = {"margins": ["hem", "vg", "hem2"], "copula": CLAYTON}
     fixed5 = {"kind": "fixed", "h": 0.1, "n": 5, "refine": 0}
-    for model, dim, grid in (
-        (HEM, 1, fixed5),
-        (CGMY12, 1, {"kind": "geometric-bounds", "h": 0.1, "bounds": [-0.7, 0.4], "n_side": 3, "refine": 0}),
-        (HEM, 1, {"kind": "credit", "h": 0.1, "a_frac": 0.5, "symmetric": True, "refine": 0}),
-        (HEM_POS, 1, dict(ONE_LEFT, refine=1)),
-        (cm, 2, {"kind": "fixed", "h": 0.1, "n": 3, "refine": 0}),
-        (cm, 2, {"kind": "credit", "h": 0.1, "a_frac": [0.4, 0.6], "symmetric": False, "refine": 0}),
-        (cm, 2, dict(ONE_LEFT, refine=0)),
-        (cm3, 3, {"kind": "fixed", "h": 0.1, "n": 3, "refine": 0}),
+    credit2 = {"kind": "credit", "h": 0.1, "a_frac": [0.4, 0.6], "symmetric": False, "refine": 0}
+    # (model, dimension, grid, log sizes of the inversion sampler (None = the library's), size of the menu of uniforms)
+    for model, dim, grid, storages, nmenu in (
+        (HEM, 1, fixed5, (None, 3), 14),
+        (CGMY12, 1, {"kind": "geometric-bounds", "h": 0.1, "bounds": [-0.7, 0.4], "n_side": 3, "refine": 0}, (None, 3), 14),
+        (HEM, 1, {"kind": "credit", "h": 0.1, "a_frac": 0.5, "symmetric": True, "refine": 0}, (None, 3), 14),
+        (HEM_POS, 1, dict(ONE_LEFT, refine=1), (None, 3), 14),
+        (cm, 2, {"kind": "fixed", "h": 0.1, "n": 3, "refine": 0}, (None, 3), 12),
+        (cm, 2, credit2, (None, 3, 30) if thorough else (30,), 10),
+        (cm, 2, dict(ONE_LEFT, refine=0), (None, 3), 10),
+        (cm3, 3, {"kind": "fixed", "h": 0.1, "n": 3, "refine": 0}, (None, 3) if thorough else (None,), 8),
     ):
-        for storage in (None, 3) + ((30,) if grid["kind"] == "credit" and dim == 2 else ()):
+        for storage in storages:
             out.append({"sub": "history", "dim": dim, "model": model, "grid": grid, "method": "INVERSION",
-                        "storage": storage, "depth": depth})
+                        "storage": storage, "depth": depth, "menu": nmenu})
         out.append({"sub": "history", "dim": dim, "model": model, "grid": grid,
                     "method": "BINARYSEARCHTREEADAPTED1D" if dim == 1 else "BINARYSEARCHTREEADAPTED", "storage": None,
-                    "depth": depth})
+                    "depth": depth, "menu": nmenu})
     for meth in ("ALIAS", "TABLE", "BINARYSEARCHTREE", "HUFFMANNTREE"):
         for model, grid in ((HEM, fixed5),) + (((VG, dict(ONE_RIGHT, refine=1)),) if thorough else ()):
             out.append({"sub": "history", "dim": 1, "model": model, "grid": grid, "method": meth, "storage": None,
-                        "depth": min(depth, 3)})
+                        "depth": min(depth, 3), "menu": 14})
     return out
 
 
@@ -482,7 +512,9 @@ def _raw(sh, case):
     probes = [(i + 0.5) / (K * D) for i in range(K * D)]
     # every possible break point (multiples of 1/D: cumulative sums in any order; x/K: alias columns), the float on either side
     pts = sorted({j / D for j in range(1, D)} | {x / K for x in range(1, K)})
-    singles = [0.0, ONE_MINUS]
+    # (the last float of [0, 1) only when the entries j/D are exact in binary: otherwise their float sum may fall short of 1 and
+    # that float belongs to no state of the target)
+    singles = [0.0] + ([ONE_MINUS] if D & (D - 1) == 0 else [])
     for e in pts:
         singles += [e, math.nextafter(e, math.inf), math.nextafter(e, -math.inf)]
     for c in compositions(D, K):
@@ -515,7 +547,7 @@ def _raw(sh, case):
                                              f"p={list(c)}/{D}: u={u!r} -> {k}", None)
                                 break
                             if c[k] == 0:
-                                sh.violation(f"C02:raw:{name}:zero-probability-state-returned-at-single-float:{vec_class(c)}",
+                                sh.violation(f"C02:raw:{name}:zero-probability-state-returned{where_class(u, 0.0)}:{vec_class(c)}",
                                              f"p={list(c)}/{D}: u={u!r} -> state {k} of probability 0", {"p": list(c), "D": D, "u": u})
                                 break
             except Exception as e:  # noqa
@@ -534,6 +566,9 @@ def judge_vector(sh, sub, name, p, pieces, hi, label):
     exactly 0 or outside the range must not be returned on any probe (a piece of one float counts)."""
     K = len(p)
     L = lengths(pieces, hi)
+    # the float sum of p may fall short of 1: the last (8 + K) ulps of [0, 1) belong to no state of the target and are not
+    # judged against a probability of 0
+    top_zone = hi * (1.0 - (8 + K) * ULP)
     for k in sorted(set(L) - set(range(K))):
         sh.violation(f"C02:{sub}:{name}:state-outside-range", f"{label}: state {k} returned", None)
     for k in range(K):
@@ -541,7 +576,10 @@ def judge_vector(sh, sub, name, p, pieces, hi, label):
         if p[k] == 0:
             if k in L:
                 at, ln = where_returned(pieces, hi, k)
-                cls = "zero-probability-state-returned" + ("" if ln > 1e-12 else "-at-single-float")
+                if at >= top_zone:
+                    sh.count("rounding-zone-answers-not-judged")
+                    continue
+                cls = "zero-probability-state-returned" + where_class(at, ln)
                 sh.violation(f"C02:{sub}:{name}:{cls}", f"{label}: state {k} of probability 0 returned from u={at!r} on a length {ln!r}", None)
         elif abs(got - p[k]) > 1e-12 + 1e-9 * p[k]:
             sh.violation(f"C02:{sub}:{name}:law-differs", f"{label}: state {k} gets length {got!r} instead of {p[k]!r}", None)
@@ -929,6 +967,12 @@ class Driver:
         return [as_inc(x) for x in r]
 
 
+def single_entry(proc, case):
+    """(u -> increment tuple, upper end of the domain) of the single-uniform entry point; kept for other modules."""
+    drv = Driver(proc, case["method"])
+    return drv.draw, drv.hi
+
+
 def _chain(sh, case):
     dim, meth = case["dim"], case["method"]
     tag = f"d{dim}:{meth.lower()}"
@@ -1002,8 +1046,9 @@ def _chain(sh, case):
     pieces, hi = results[0]
     L = lengths(pieces, hi)
     scale = hi
-    # the zone at the top of [0, hi) where the rounded cumulative sums of a correct sampler may fall short of hi: the answer
-    # there is the inversion sampler's hidden choice (any state of the grid); not judged against a target of 0
+    # the zone at the top of [0, hi) where the rounded cumulative sums of a correct sampler may fall short of hi (the float sum
+    # of the target vector is not exactly 1: these floats belong to no state of the target; the inversion sampler hands them
+    # to its hidden choice): a state of probability 0 or the origin there is counted, not judged; a state off the grid is
     top_zone = hi * (1.0 - (8 + nstates) * ULP)
     # (1) law; a target of exactly 0 is judged on every probe
     worst = 0.0
@@ -1014,10 +1059,16 @@ def _chain(sh, case):
         if pk == 0.0:
             if inc in L:
                 at, ln = where_returned(pieces, hi, inc)
-                if meth == "INVERSION" and at >= top_zone:
-                    sh.count("hidden-choice-zone-answers")
+                if at >= top_zone:
+                    sh.count("rounding-zone-answers-not-judged")
                     continue
-                c2 = "zero-probability-state-returned" + ("" if ln > 1e-12 else "-at-single-float")
+                if ln <= 1e-12 and at > 0.0 and meth in ("BINARYSEARCHTREEADAPTED1D", "BINARYSEARCHTREEADAPTED"):
+                    # the adapted trees descend on masses of UNIONS of cells, which equal the sum of the cell masses up to
+                    # rounding only (a union of cells of mass exactly 0 may have a mass of 1e-20): one float at the start of
+                    # such a box is explained by the masses themselves (C01's subject), not by the sampler
+                    sh.count("single-float-answers-explained-by-mass-rounding")
+                    continue
+                c2 = "zero-probability-state-returned" + where_class(at, ln)
                 sh.violation(f"C02:chain:{tag}:{c2}:{cls}",
                              f"state increment {inc} of target probability 0 is returned from u={at!r} on a length {ln!r}",
                              {"increment": inc, "u": at, "length": ln})
@@ -1029,9 +1080,10 @@ def _chain(sh, case):
     # (2) range: on any probe
     for s in [s for s in L if s not in law]:
         at, ln = where_returned(pieces, hi, s)
-        c2 = "origin-returned" if not any(s) else "state-outside-grid"
-        if ln <= 1e-12:
-            c2 += "-at-single-float"
+        if not any(s) and at >= top_zone:
+            sh.count("rounding-zone-answers-not-judged")
+            continue
+        c2 = ("origin-returned" if not any(s) else "state-outside-grid") + where_class(at, ln)
         sh.violation(f"C02:chain:{tag}:{c2}:{cls}", f"increment {s} returned from u={at!r} on a length {ln!r}", None)
     # (1b) the same law when the memoised prefix is shorter than the number of states (scaled-down overflow regime of the
     # inversion sampler: _max_storage is 10^6 in the library; here about 60 % of the states, so that the enumeration is
@@ -1088,6 +1140,36 @@ def _chain(sh, case):
                              {"u": us[j] if j >= 0 else None})
         except Exception as e:  # noqa
             sh.violation(f"C02:chain:{tag}:batch-call-raises-{type(e).__name__}:{cls}", f"sample(size=n): {e!r}", None)
+    # (5) the law of a sampler built AFTER a sampler of another model was built and used on the same grid object (memos shared
+    # between objects - class attributes, module-level caches keyed by cell bounds only - show here whatever the order in
+    # which the cases of a run are scheduled), and the answers of that other sampler once the new one has been used
+    if meth in ("INVERSION", "BINARYSEARCHTREEADAPTED1D", "BINARYSEARCHTREEADAPTED") and case["grid"].get("refine", 0) == 0 \
+            and nstates <= 130:
+        with hidden_choice(first_choice):
+            try:
+                ccase = companion_model(case)
+                g = make_grid_x(case["grid"], model_of(case), dim)
+                comp = Driver(process_on(ccase, model_of(ccase), g), meth)
+                cus = [comp.hi * (j + 0.5) / 48 for j in range(48)]
+                before = [comp.draw(u) for u in cus]
+                late = Driver(process_on(case, model_of(case), g), meth)
+                pl, ev, hl = recover_partition(late.draw, n0, 0.0, late.hi)
+                sh.count("evaluations", ev + 2 * len(cus))
+                Ll = lengths(pl, hl)
+                for inc, pk in law.items():
+                    got = Ll.get(inc, 0.0) / hl
+                    if abs(got - pk) > 1e-12 + 1e-9 * pk:
+                        sh.violation(f"C02:chain:{tag}:law-differs-after-a-second-sampler-on-the-grid:{cls}",
+                                     f"built after a sampler for {model_label(ccase['model'])} was used on the same grid object: state increment {inc}: recovered length {got!r}, target {pk!r}",
+                                     {"increment": inc, "recovered": got, "target": pk})
+                        break
+                after = [comp.draw(u) for u in cus]
+                if after != before:
+                    j = next(i for i, (a, b) in enumerate(zip(after, before)) if a != b)
+                    sh.violation(f"C02:chain:{tag}:answer-changes-when-a-second-sampler-is-used-on-the-grid:{cls}",
+                                 f"sampler for {model_label(ccase['model'])}: u={cus[j]!r} -> {before[j]}, after a second sampler was built and used on its grid -> {after[j]}", None)
+            except Exception as e:  # noqa
+                sh.violation(f"C02:chain:{tag}:second-sampler-on-the-grid-raises-{type(e).__name__}:{cls}", f"{e!r}", None)
     sh.outcome((tag, cls, case["grid"].get("refine"), nstates, len(pieces)))
     if sum(1 for v in law.values() if v > 0) >= 2:
         sh.nontriv()
@@ -1132,7 +1214,7 @@ def companion_model(case):
     return dict(case, model={"margins": margins[1:] + margins[:1], "copula": {"kind": "clayton", "theta": 3.0, "eta": 0.0}})
 
 
-OPS = ("reset", "copy", "pickle", "batch", "other")
+PURE_OPS = ("reset", "copy", "pickle", "other")
 OP_WORDS = {"reset": "cost-reset", "copy": "deepcopy", "pickle": "dill-round-trip", "batch": "batch-call",
             "other": "second-sampler-on-the-grid"}
 
@@ -1145,6 +1227,10 @@ def _history(sh, case):
         import dill
     except Exception:  # noqa
         dill = None
+    # samplers whose whole mutable state is visible in the digest (the memo of the inversion search and the indices of its
+    # enumeration); the others only hold caches of pure values: the set of u drawn so far stands for the cache contents
+    digest_complete = meth == "INVERSION"
+    draws_max = case["depth"] if digest_complete else max(2, case["depth"] - 1)
 
     def new_driver(c=case, grid=None):
         if grid is None:
@@ -1155,6 +1241,9 @@ def _history(sh, case):
             p.sampling._max_storage = case["storage"]
         return Driver(p, meth)
 
+    def main_grid():
+        return make_grid_x(case["grid"], model_of(case), dim)
+
     with hidden_choice(first_choice):
         try:
             d0 = new_driver()
@@ -1164,8 +1253,9 @@ def _history(sh, case):
         hi = d0.hi
         law = target_law(d0.proc, d0.proc.grid, dim)
         nstates = len(law)
+        nmenu = case.get("menu", 14)
         if meth == "TABLE":
-            menu_us = [(j + 0.37) / 14 for j in range(14)]
+            menu_us = [(j + 0.37) / nmenu for j in range(nmenu)]
         else:
             pieces, ev, hi = recover_partition(d0.draw, 1 << 10, 0.0, hi)
             # menu: one u inside every piece, the first u of a middle piece, 0, top
@@ -1173,63 +1263,72 @@ def _history(sh, case):
             for (s, st), nx in zip(pieces, pieces[1:] + [(hi, None)]):
                 menu_us.append(s + (nx[0] - s) / 2)
             menu_us += [pieces[len(pieces) // 2][0], 0.0, math.nextafter(hi, -math.inf)]
-            menu_us = sorted(set(menu_us))
-            if len(menu_us) > 14:
+            menu_us = sorted({u for u in menu_us if 0.0 <= u < hi})  # (the middle of a last piece of one float rounds to hi)
+            if len(menu_us) > nmenu:
                 # spread over the whole of [0, hi): the draws beyond the memoised prefix are the interesting ones
-                idx = sorted({round(i * (len(menu_us) - 1) / 13) for i in range(14)})
+                idx = sorted({round(i * (len(menu_us) - 1) / (nmenu - 1)) for i in range(nmenu)})
                 menu_us = [menu_us[i] for i in idx]
         n = len(menu_us)
         sub = sorted({0, n // 3, (2 * n) // 3, n - 2, n - 1} & set(range(n)))
         fresh = {}
         for u in menu_us:
             fresh[u] = new_driver().draw(u)
+        # the second sampler: another model, same method, on the grid object of the first, drawn at the sub-menu in order; its
+        # fresh twin (same draws in the same order) lives on its own copy of that grid
         ccase = companion_model(case)
         cfresh = {}
         try:
+            dc = new_driver(ccase, grid=main_grid())
             for i in sub:
-                dc = new_driver(ccase)
-                cfresh[i] = (min(menu_us[i], math.nextafter(dc.hi, -math.inf)),)
-                cfresh[i] += (dc.draw(cfresh[i][0]),)
+                cu = min(menu_us[i], math.nextafter(dc.hi, -math.inf))
+                cfresh[i] = (cu, dc.draw(cu))
         except Exception as e:  # noqa
             sh.note(f"history: no second sampler for {tag} ({type(e).__name__})")
             cfresh = None
-        ops = [o for o in OPS if not (o == "pickle" and dill is None) and not (o == "other" and cfresh is None)]
-        if dill is not None:
+        ops = [o for o in PURE_OPS if not (o == "pickle" and dill is None) and not (o == "other" and cfresh is None)]
+        if "pickle" in ops:
             try:
                 dill.loads(dill.dumps(new_driver().proc))
             except Exception as e:  # noqa
                 ops.remove("pickle")
                 sh.note(f"history: the process of {tag} does not survive a dill round trip ({type(e).__name__}): operation dropped")
-        events = [["u", i] for i in range(n)] + [[o, i] for o in ops for i in sub]
+        draw_events = [["u", i] for i in range(n)]
+        batch_events = [["batch", i] for i in sub]
+        op_events = [[o, -1] for o in ops]
+
+        def batch_us(i):
+            return [menu_us[i], menu_us[(2 * i + 1) % n], menu_us[(i + n // 2) % n]]
 
         def apply(st, ev):
             """apply one event to the state; the comparisons made are appended to st['bad'] when they fail."""
             kind, i = ev
-            u = menu_us[i]
             drv = st["drv"]
             if kind == "reset":
                 drv.proc.reset_one_simulation_cost()
                 drv.s.reset_sampling_cost()
             elif kind == "copy":
-                drv = st["drv"] = Driver(copy.deepcopy(drv.proc), meth)
+                st["drv"] = Driver(copy.deepcopy(drv.proc), meth)
             elif kind == "pickle":
-                drv = st["drv"] = Driver(dill.loads(dill.dumps(drv.proc)), meth)
+                st["drv"] = Driver(dill.loads(dill.dumps(drv.proc)), meth)
             elif kind == "other":
                 if st["comp"] is None:
                     st["comp"] = new_driver(ccase, grid=drv.proc.grid)
-                cu, want = cfresh[i]
-                got = st["comp"].draw(cu)
-                if got != want:
-                    st["bad"].append(("second-sampler-answer-depends-on-the-first-sampler-of-the-grid",
-                                      f"a second sampler ({model_label(ccase['model'])}) built on the grid of the first maps u={cu!r} to {got}, its fresh twin to {want}"))
-            if kind == "batch":
-                us3 = [menu_us[i], menu_us[(2 * i + 1) % n], menu_us[(i + n // 2) % n]]
+                for j in sub:
+                    cu, want = cfresh[j]
+                    got = st["comp"].draw(cu)
+                    if got != want:
+                        st["bad"].append(("second-sampler-answer-depends-on-the-first-sampler-of-the-grid",
+                                          f"a second sampler ({model_label(ccase['model'])}) built on the grid of the first maps u={cu!r} to {got}, its fresh twin to {want}"))
+                        break
+            elif kind == "batch":
+                us3 = batch_us(i)
                 got3 = drv.batch(us3)
                 want3 = [fresh[x] for x in us3]
                 st["obs"].append(got3)
                 if got3 != want3:
                     st["bad"].append((None, f"batch call sample(3) on u={us3} gives {got3}, fresh samplers give {want3}"))
             else:
+                u = menu_us[i]
                 got = drv.draw(u)
                 st["obs"].append(got)
                 if got != fresh[u]:
@@ -1248,16 +1347,35 @@ def _history(sh, case):
             return st
 
         def menu(state, hist):
-            return events
+            """up to draws_max draw-bearing events (single draws at every u of the menu, batch calls on the sub-menu) and at
+            most one operation without a draw anywhere before the last draw; after such an operation every single draw."""
+            n_draws = sum(1 for k, _ in hist if k in ("u", "batch"))
+            if n_draws >= draws_max:
+                return []
+            if hist and hist[-1][0] in PURE_OPS:
+                return draw_events
+            used = any(k in PURE_OPS for k, _ in hist)
+            return draw_events + batch_events + ([] if used else op_events)
 
         def canon(state, hist):
             drawn = set()
-            for kind, i in hist:
-                drawn.update([i] if kind != "batch" else [i, (2 * i + 1) % n, (i + n // 2) % n])
-            return (tuple(state_digest(state["drv"].s)), tuple(sorted(drawn)), tuple(k for k, _ in hist if k != "u"))
+            if not digest_complete:
+                for kind, i in hist:
+                    if kind == "u":
+                        drawn.add(i)
+                    elif kind == "batch":
+                        drawn.update([i, (2 * i + 1) % n, (i + n // 2) % n])
+            # a state reached by an operation without a draw is kept apart from the state before it, so that every draw of
+            # the menu is observed right after the operation; one draw later the states merge again when their digests agree
+            pending = hist[-1][0] if hist and hist[-1][0] in PURE_OPS else None
+            return (tuple(state_digest(state["drv"].s)), tuple(sorted(drawn)), pending)
 
         def describe(ev):
-            return f"{ev[0]}@{menu_us[ev[1]]!r}" if ev[0] != "u" else repr(menu_us[ev[1]])
+            if ev[0] == "u":
+                return repr(menu_us[ev[1]])
+            if ev[0] == "batch":
+                return f"sample(3)@{batch_us(ev[1])}"
+            return OP_WORDS[ev[0]]
 
         def invariant(state, hist, ev):
             if ev is None or not state["bad"]:
@@ -1269,7 +1387,7 @@ def _history(sh, case):
                     f"after the history [{', '.join(describe(e) for e in hist[:-1])}] then {describe(hist[-1])}: {text}",
                     {"history": hist, "menu_us": menu_us, "observed": state["obs"]})
 
-        s_, t_, d_ = core.bfs(sh, build, menu, canon, invariant, case["depth"], max_states=4000)
+        s_, t_, d_ = core.bfs(sh, build, menu, canon, invariant, draws_max + 1, max_states=4000)
         sh.count("evaluations", t_)
         sh.outcome((tag, nstates, s_, t_))
         sh.nontriv()
